@@ -129,6 +129,13 @@ func main() {
 		}
 		overlay[kv[0]] = data
 	}
+	if *prop == "C17" {
+		// positive fixture for the zero-expected-report taint rule: a virtual file (overlay only, /repo is not touched)
+		if overlay == nil {
+			overlay = map[string][]byte{}
+		}
+		overlay[filepath.Join(abs, "pkg", "handlers", "zz_verif_fixture.go")] = []byte(taintFixture)
+	}
 	var extraEnv []string
 	if *goos != "" {
 		extraEnv = append(extraEnv, "GOOS="+*goos)
@@ -184,3 +191,24 @@ func (r *Run) finishQuiet() int {
 	fmt.Printf("SUBRUN property=%s obligations=%d\n", r.Property, len(r.Obs))
 	return code
 }
+
+const taintFixture = `package handlers
+
+import (
+	"os"
+	"path/filepath"
+
+	"github.com/gookit/rux"
+)
+
+// zzVerifFixtureServe joins a request parameter to the root by hand: the
+// taint rule C17-TAINT must flag it on every run.
+func zzVerifFixtureServe(root string) rux.HandlerFunc {
+	return func(c *rux.Context) {
+		f, err := os.Open(filepath.Join(root, c.Param("file")))
+		if err == nil {
+			_ = f.Close()
+		}
+	}
+}
+`
